@@ -307,6 +307,7 @@ func checkC13(p *Prog, r *Report) {
 	// the three weather layouts meet in one normalisation: it must treat every record of every loaded year alike,
 	// whatever the shape of the buffer a layout fills (one year per call, or all years at once) — shared with C04.R4
 	c04Transform(p, r, "C13.weather-normalisation")
+	c13OptionalColumns(p, r)
 }
 
 func short(k string) string { return strings.TrimPrefix(k, "hermes.") }
@@ -806,6 +807,106 @@ func c13Headers(p *Prog, r *Report, rule string) {
 		}
 		if n == 0 {
 			r.Ob(short(key)+":position", "-", false, "the resolver never stores a column position")
+		}
+	}
+}
+
+// C13.optional-columns — the CSV layouts address columns through a map built
+// from the header line.  Indexing that map with a name the header does not
+// have yields 0, i.e. column 0 (the soil id / field id).  For the columns the
+// readers treat as optional (parsed with the tolerant parser, value kept only
+// when it parses) the lookup must therefore be presence-checked: the fixed-
+// width siblings leave such values unset when the line has no such field.
+func c13OptionalColumns(p *Prog, r *Report) {
+	r.Rule("C13.optional-columns", "optional CSV columns: every value handed to the tolerant number parser in the CSV soil and measurement readers is taken from a column whose presence in the header was tested (comma-ok lookup of the header map, the absent case leaving the value unset) — never from header[name] of an absent name, which is column 0", 12)
+	for _, key := range []string{"hermes.LoadSoilCSV", "hermes.ExtractMeasuredDataCSV"} {
+		fi := p.Funcs[key]
+		if fi == nil {
+			r.Ob("reader:"+short(key), "-", false, "reader not found")
+			continue
+		}
+		info := fi.Pkg.TypesInfo
+		body := fi.Decl.Body
+		// header maps: locals of map type with int values
+		isHeaderMap := func(e ast.Expr) bool {
+			t := info.TypeOf(e)
+			if t == nil {
+				return false
+			}
+			m, ok := t.Underlying().(*types.Map)
+			if !ok {
+				return false
+			}
+			b, ok := m.Elem().Underlying().(*types.Basic)
+			return ok && b.Kind() == types.Int
+		}
+		n := 0
+		ast.Inspect(body, func(nd ast.Node) bool {
+			call, ok := nd.(*ast.CallExpr)
+			if !ok || len(call.Args) != 1 {
+				return true
+			}
+			f := callee(info, call)
+			if f == nil || f.Name() != "TryValAsFloat" {
+				return true
+			}
+			n++
+			ix, ok := stripParens(call.Args[0]).(*ast.IndexExpr)
+			if !ok {
+				r.Ob(fmt.Sprintf("optional:%s#%d", short(key), n), p.Pos(call.Pos()), false, "tolerant parse of something that is not a column of the line: "+types.ExprString(call.Args[0]))
+				return true
+			}
+			okP, det := false, ""
+			switch idx := stripParens(ix.Index).(type) {
+			case *ast.Ident:
+				// col defined by  col, ok := header[K]  with ok tested before the use
+				col := useObj(info, idx)
+				for _, d := range defsOf(info, body, col) {
+					mi, isIdx := stripParens(d.Rhs).(*ast.IndexExpr)
+					as, isAs := d.Stmt.(*ast.AssignStmt)
+					if !isIdx || !isAs || d.Idx != 0 || len(as.Lhs) != 2 || !isHeaderMap(mi.X) {
+						continue
+					}
+					okObj := useObj(info, as.Lhs[1])
+					conds, _ := astPathConds(info, body, call)
+					for _, c := range conds {
+						// reached only when ok holds: positive ok, or the exit  if !ok [|| …] { return }
+						if useObj(info, c.E) == okObj && okObj != nil && ((!c.Neg) || (c.Neg && c.Exit != nil && false)) {
+							okP = true
+						}
+						if c.Exit != nil && c.Neg {
+							// the literal came from splitting ¬(!ok || …): it shows up as positive ok
+							continue
+						}
+					}
+					det = fmt.Sprintf("column %s from the presence-checked lookup %s", idx.Name, types.ExprString(mi))
+				}
+			case *ast.IndexExpr:
+				if isHeaderMap(idx.X) {
+					// tokens[header[K]]: needs an enclosing  _, ok := header[K]; ok
+					conds, _ := astPathConds(info, body, call)
+					for _, c := range conds {
+						o := useObj(info, c.E)
+						if o == nil || c.Neg {
+							continue
+						}
+						for _, d := range defsOf(info, body, o) {
+							if mi, isIdx := stripParens(d.Rhs).(*ast.IndexExpr); isIdx && d.Idx == 1 && types.ExprString(mi) == types.ExprString(idx) {
+								okP = true
+							}
+						}
+					}
+					det = "column " + types.ExprString(idx) + " looked up without a presence test: an absent column reads column 0"
+					if okP {
+						det = "column " + types.ExprString(idx) + " under its own presence test"
+					}
+				}
+			}
+			r.Ob(fmt.Sprintf("optional:%s#%d", short(key), n), p.Pos(call.Pos()), okP, det)
+			return true
+		})
+		if n == 0 {
+			r.Ob("optional:"+short(key), p.Pos(fi.Decl.Pos()), false, "no tolerant parse found in the reader (the optional columns were confirmed by hand)")
 		}
 	}
 }
